@@ -16,6 +16,12 @@ Ltac xor_solve :=
 Lemma xor_swap4 a b c d : Z.lxor (Z.lxor a b) (Z.lxor c d) = Z.lxor (Z.lxor a c) (Z.lxor b d).
 Proof. xor_solve. Qed.
 
+Lemma lxor_fix c x : c = Z.lxor c x -> x = 0.
+Proof.
+  intros H. apply (f_equal (Z.lxor c)) in H. rewrite <- Z.lxor_assoc, Z.lxor_nilpotent, Z.lxor_0_l in H.
+  symmetry. exact H.
+Qed.
+
 Lemma xor_move a b c : Z.lxor a b = c -> a = Z.lxor c b.
 Proof. intros <-. rewrite Z.lxor_assoc, Z.lxor_nilpotent, Z.lxor_0_r. reflexivity. Qed.
 
@@ -237,8 +243,6 @@ Definition NS : nat := 87.
 Definition P1of (L : list Z) : PositiveSet.t :=
   fold_left (fun s a => add_all (Z.lxor a) L s) vals PositiveSet.empty.
 Definition P1set : PositiveSet.t := P1of (0 :: concat (drows 1 NS)).
-Definition check_same : bool := notin P1set 0 && pairs_ok (notin P1set) (drows 1 NS).
-
 Lemma fold_add_mono L vs : forall s k, PositiveSet.mem k s = true ->
   PositiveSet.mem k (fold_left (fun s a => add_all (Z.lxor a) L s) vs s) = true.
 Proof.
@@ -261,12 +265,13 @@ Proof. intros Ha Ht. unfold P1set, P1of. apply fold_add_mem; [apply vals_in; exa
 Definition NC : nat := 72.
 Definition DD : Z := Z.lxor 1 BECH32M_CONST.
 Definition Q1set : PositiveSet.t := add_all (Z.lxor DD) (0 :: concat (drows 0 NC)) PositiveSet.empty.
-Definition check_cross : bool := notin Q1set 0 && pairs_ok (notin Q1set) (drows 0 NC).
 
-Lemma check_same_true : check_same = true.
-Proof. vm_cast_no_check (eq_refl true). Qed.
-Lemma check_cross_true : check_cross = true.
-Proof. vm_cast_no_check (eq_refl true). Qed.
+(* the two enumerations, evaluated by the kernel's virtual machine.  They are stated as separate equations (not
+   as one conjunction of booleans) so that no later conversion is tempted to evaluate them lazily. *)
+Lemma check_same_parts : notin P1set 0 = true /\ pairs_ok (notin P1set) (drows 1 NS) = true.
+Proof. split; vm_cast_no_check (eq_refl true). Qed.
+Lemma check_cross_parts : notin Q1set 0 = true /\ pairs_ok (notin Q1set) (drows 0 NC) = true.
+Proof. split; vm_cast_no_check (eq_refl true). Qed.
 
 (* ---------- from the enumeration to all error vectors ---------- *)
 Lemma notin_false S z : PositiveSet.mem (key z) S = true -> notin S z = false.
@@ -310,7 +315,7 @@ Lemma same_core us x : dec_from 88 us -> lower 1 us -> (length us <= 3)%nat -> 1
   Z.lxor (tsum us) x <> 0.
 Proof.
   intros Hd Hlo Hl Hx Heq.
-  pose proof check_same_true as Hc. unfold check_same in Hc. apply andb_true_iff in Hc as [Hc0 Hcp].
+  destruct check_same_parts as [Hc0 Hcp].
   rewrite (split2 us), tsum_app in Heq.
   set (f1 := firstn 2 us) in *. set (f2 := skipn 2 us) in *.
   assert (Hf1 : notin P1set (tsum f1) = true).
@@ -325,7 +330,7 @@ Proof.
     - unfold f2. rewrite skipn_length. lia. }
   assert (E : tsum f1 = Z.lxor x (tsum f2)).
   { apply Z.lxor_eq in Heq. apply xor_move in Heq. exact Heq. }
-  rewrite E in Hf1. rewrite (notin_false _ _ (P1set_mem x (tsum f2) Hx Hf2)) in Hf1. discriminate.
+  rewrite E in Hf1. rewrite (notin_false _ _ (P1set_mem x (tsum f2) Hx Hf2)) in Hf1. discriminate Hf1.
 Qed.
 
 Theorem syn_nonzero : forall e, Forall (fun x => 0 <= x < 32) e -> (length e <= 88)%nat ->
@@ -351,7 +356,7 @@ Theorem syn_not_cross : forall e, Forall (fun x => 0 <= x < 32) e -> (length e <
   (nz e <= 3)%nat -> syn e <> DD.
 Proof.
   intros e He Hl Hn Heq.
-  pose proof check_cross_true as Hc. unfold check_cross in Hc. apply andb_true_iff in Hc as [Hc0 Hcp].
+  destruct check_cross_parts as [Hc0 Hcp].
   destruct (syn_terms e He) as [ts [Hs [Hd Hlen]]]. rewrite Hs in Heq.
   assert (Hd72 : dec_from (0 + NC) ts) by (eapply dec_mono; [exact Hd|unfold NC; lia]).
   assert (Hlo : lower 0 ts) by (unfold lower; apply Forall_forall; intros; lia).
@@ -371,7 +376,7 @@ Proof.
   rewrite E in Hf1.
   assert (Hm : PositiveSet.mem (key (Z.lxor DD (tsum f2))) Q1set = true).
   { unfold Q1set. apply add_all_mem. right. exists (tsum f2). auto. }
-  rewrite (notin_false _ _ Hm) in Hf1. discriminate.
+  rewrite (notin_false _ _ Hm) in Hf1. discriminate Hf1.
 Qed.
 
 (* ---------- corrupted words ---------- *)
@@ -443,9 +448,7 @@ Proof.
   assert (Hsame : (length d <= 88)%nat -> (1 <= hamming d d' <= 4)%nat -> bech32_verify_checksum hrp d' <> Some spec).
   { intros Hn Hh Hv'. apply verify_some in Hv'. rewrite Hv' in Hp.
     apply (syn_nonzero (xorl d d') He); [lia|rewrite nz_xorl; exact Hh|].
-    symmetry in Hp. apply xor_move in Hp. rewrite Z.lxor_nilpotent in Hp. rewrite Z.lxor_comm in Hp. 
-    rewrite <- (Z.lxor_0_r (syn (xorl d d'))). rewrite <- Hp. rewrite Z.lxor_0_r.
-    rewrite Z.lxor_assoc, Z.lxor_nilpotent, Z.lxor_0_r. reflexivity. }
+    apply (lxor_fix (const_of spec)). exact Hp. }
   split; [exact Hsame|].
   intros Hn Hh. destruct (bech32_verify_checksum hrp d') as [spec'|] eqn:Ev'; [exfalso|reflexivity].
   destruct (enc_eqb spec spec') eqn:Es.
